@@ -208,10 +208,11 @@ pub fn execute_e(case: &CaseE, en: &En, record: Option<u64>, obs: &mut Obs) -> R
   let fail_at = out.trace.iter().position(|it| matches!(it, Item::Fail { .. }));
   let cut = match fail_at { None => out.trace.len(), Some(f) => out.trace[..f].iter().rposition(|it| matches!(it, Item::NextK { res: Some(_), .. } | Item::NextT { res: Some(_), .. })).unwrap_or(0) };
   let trace = &out.trace[..cut];
-  let partial = |v: Option<Violation>| -> Option<Violation> {
-    if v.is_some() || !en.c07 { return v; }
-    out.byte_notes.iter().find(|m| m.starts_with("[partial-step]")).map(|m| Violation::new("C07-partial-step", cut, m.clone()))
-  };
+  // A no-repeat step that a *reported* write failure cut between a press and its release leaves a key
+  // down. That is counted in the evidence, not judged: no statement says that a batch goes out in one
+  // write call, and a writer that sends one record per call is among the property-preserving variants
+  // (RF6-c); see DESIGN.md 10, round 6.
+  let partial = |v: Option<Violation>| -> Option<Violation> { v };
   if case.b.has_tablet {
     let (ops, steps, chords) = ops_from_trace(trace);
     let mut pre = Precomputed { steps, chords, i: 0, per_op: true };
@@ -288,7 +289,7 @@ impl Campaign for E2ECampaign {
     acc.fault("io_latency_in_call", s.latency); acc.fault("spurious_readiness", s.spurious_ready); acc.fault("signal_interrupts_poll", s.eintr); acc.fault("arrival_during_drain", s.arrival_during_drain);
     acc.probe_n("polls_through_the_shipped_real_driver_poll", s.sys_polls_through_real_driver); acc.fault("wait_syscall_interrupted_eintr", s.sys_wait_eintr); acc.fault("wait_syscall_fabricated_readiness", s.sys_fabricated_ready); acc.fault("wait_syscall_stale_edge_dropped", s.sys_stale_dropped);
     acc.probe_n("real_driver_polls_cross_checked", s.real_polls_compared); acc.probe_n("wakeup_with_two_or_more_events", s.multi_event_wakeups);
-    acc.fault("os_write_failed_at_nth_write_syscall", s.os_syswrite_fault.iter().sum::<u64>()); acc.probe_n("failed_write_left_partial_frame_on_device", s.syswrite_partial_frames);
+    acc.fault("os_write_failed_at_nth_write_syscall", s.os_syswrite_fault.iter().sum::<u64>()); acc.probe_n("failed_write_left_partial_frame_on_device", s.syswrite_partial_frames); acc.probe_n("failed_write_cut_a_no_repeat_step_between_press_and_release", out.byte_notes.iter().filter(|m| m.starts_with("[partial-step]")).count() as u64);
     acc.count("runs_cut_short_by_the_trace_cap_and_not_evaluated", out.stats.trace_cap_hit.min(1));
     acc.count("steps", obs.steps); acc.count("sim_us", out.sim_us); acc.count("mappings_fired", obs.fired); acc.count("driver_calls", out.trace.len() as u64);
     let delivered: Vec<Event> = case.a.ops.iter().filter_map(|o| if let Op::Ev(e) = o { Some(e.clone()) } else { None }).collect();
